@@ -2,6 +2,8 @@ module verif
 
 go 1.26.8
 
+godebug randseednop=0
+
 require (
 	github.com/anishathalye/porcupine v1.3.0
 	github.com/echovault/sugardb v0.0.0
